@@ -529,6 +529,15 @@ func (h *dbHarness) checkRecovered() {
 	c := h.pendingCtx
 	pts, spans, err := readAll(h.db)
 	if err != nil {
+		if h.inc != nil && h.inc.FaultFired {
+			// Recovery itself ran under the remaining fault rules and an injected
+			// error was latched (the file cache remembers a failed table open,
+			// for instance): the read fails although injection is suspended
+			// now. Nothing wrong was returned; the process is failed once more
+			// and the next incarnation is judged with the same expectations.
+			h.count("fault.unreadable_after_recovery", 1)
+			h.crashHere()
+		}
 		Violation("recovery", "reading the recovered DB failed: %v", err)
 	}
 	m, desc := h.matchRecovered(c, pts, spans)
